@@ -55,13 +55,56 @@ func allCombinationsLex(n, k int) [][]int {
 			out = append(out, append([]int{}, cur...))
 			return
 		}
-		for v := start; v < n; v++ {
+		for v := start; v <= n-(k-len(cur)); v++ { // enough elements left to complete the subset
 			cur = append(cur, v)
 			rec(v + 1)
 			cur = cur[:len(cur)-1]
 		}
 	}
 	rec(0)
+	return out
+}
+
+// linearExtensions lists every permutation of 0..n-1 in which i comes before j for every given pair (i,j), by the
+// definition-level search "place any element all of whose predecessors are placed"; stops after limit results.
+func linearExtensions(n int, rel [][2]int, limit int) [][]int {
+	preds := make([][]int, n)
+	for _, e := range rel {
+		preds[e[1]] = append(preds[e[1]], e[0])
+	}
+	placed := make([]bool, n)
+	cur := make([]int, 0, n)
+	out := [][]int{}
+	var rec func()
+	rec = func() {
+		if len(out) >= limit {
+			return
+		}
+		if len(cur) == n {
+			out = append(out, append([]int{}, cur...))
+			return
+		}
+		for v := 0; v < n; v++ {
+			if placed[v] {
+				continue
+			}
+			ok := true
+			for _, p := range preds[v] {
+				if !placed[p] {
+					ok = false
+					break
+				}
+			}
+			if ok {
+				placed[v] = true
+				cur = append(cur, v)
+				rec()
+				cur = cur[:len(cur)-1]
+				placed[v] = false
+			}
+		}
+	}
+	rec()
 	return out
 }
 
@@ -634,23 +677,37 @@ func checkItCase(c itCase, rec *Rec) error {
 			rel[e] = true
 		}
 		var want [][]int
-		all := allPermsLex(c.N)
-		for _, v := range all {
-			pos := make([]int, c.N)
-			for i, x := range v {
-				pos[x] = i
-			}
-			ok := true
-			for e := range rel {
-				if pos[e[0]] > pos[e[1]] {
-					ok = false
+		var all [][]int
+		if c.N <= 8 {
+			all = allPermsLex(c.N)
+			for _, v := range all {
+				pos := make([]int, c.N)
+				for i, x := range v {
+					pos[x] = i
+				}
+				ok := true
+				for e := range rel {
+					if pos[e[0]] > pos[e[1]] {
+						ok = false
+					}
+				}
+				if ok {
+					want = append(want, v)
 				}
 			}
-			if ok {
-				want = append(want, v)
+			if le := linearExtensions(c.N, c.Rel, 1<<20); len(le) != len(want) {
+				return fmt.Errorf("harness: the two oracles for topological sorts disagree on (%d, %v): %d vs %d", c.N, c.Rel, len(le), len(want))
 			}
+		} else {
+			// long thin orders: tens of elements, few sorts
+			want = linearExtensions(c.N, c.Rel, 200000)
+			if len(want) >= 200000 {
+				return fmt.Errorf("harness: generated order on %d elements has too many topological sorts", c.N)
+			}
+			all = make([][]int, len(want)+1)
+			rec.Label("TopologicalSorts-long")
 		}
-		name := fmt.Sprintf("TopologicalSorts(%d, %v)", c.N, c.Rel)
+		name := fmt.Sprintf("TopologicalSorts(%d, %v)", c.N, clipPairs(c.Rel))
 		var bad error
 		it := itertools.TopologicalSorts(c.N, func(i, j int) bool {
 			if i < 0 || j < 0 || i >= c.N || j >= c.N {
@@ -680,6 +737,13 @@ func checkItCase(c itCase, rec *Rec) error {
 		return err
 	}
 	return fmt.Errorf("harness: unknown iterator %q", c.Iter)
+}
+
+func clipPairs(r [][2]int) string {
+	if len(r) > 60 {
+		return fmt.Sprintf("%v...(%d pairs)", r[:60], len(r))
+	}
+	return fmt.Sprint(r)
 }
 
 func isPermOf(p []int, n int) bool {
@@ -712,6 +776,18 @@ func genItCase(t *rapid.T) itCase {
 	case "Combinations", "CombinationsColex":
 		c.N = rapid.IntRange(0, maxN+2).Draw(t, "n")
 		c.K = rapid.IntRange(0, c.N+3).Draw(t, "k")
+		if rapid.IntRange(0, 4).Draw(t, "thin") == 0 {
+			// many elements, few subsets: k at either end of the range
+			c.N = rapid.IntRange(10, 200).Draw(t, "bign")
+			ks := []int{0, 1, c.N - 1, c.N, c.N, c.N + 1}
+			if c.N <= 70 {
+				ks = append(ks, 2, c.N-2)
+			}
+			if c.N <= 24 {
+				ks = append(ks, 3, c.N-3)
+			}
+			c.K = rapid.SampledFrom(ks).Draw(t, "bigk")
+		}
 	case "MultisetCombinations":
 		l := rapid.IntRange(0, 5).Draw(t, "len")
 		c.M = make([]int, l)
@@ -771,6 +847,40 @@ func genItCase(t *rapid.T) itCase {
 		c.N = rapid.IntRange(0, maxN).Draw(t, "n")
 		genPred()
 	case "TopologicalSorts":
+		if rapid.IntRange(0, 4).Draw(t, "long") == 0 {
+			// tens to a hundred and thirty elements, almost totally ordered: few sorts
+			c.N = rapid.IntRange(9, 130).Draw(t, "longn")
+			if rapid.Bool().Draw(t, "swappable") {
+				// every pair i < j is imposed except up to 10 non-overlapping adjacent pairs: 2^s sorts
+				free := map[int]bool{}
+				for s := rapid.IntRange(0, 10).Draw(t, "s"); s > 0; s-- {
+					a := rapid.IntRange(0, c.N-2).Draw(t, "a")
+					if !free[a-1] && !free[a+1] {
+						free[a] = true
+					}
+				}
+				for j := 0; j < c.N; j++ {
+					for i := 0; i < j; i++ {
+						if !(j == i+1 && free[i]) {
+							c.Rel = append(c.Rel, [2]int{i, j})
+						}
+					}
+				}
+			} else {
+				// covering relations only (less need not be transitive): a chain on all but the last f elements, which are free
+				f := rapid.IntRange(0, 2).Draw(t, "freeElems")
+				if c.N > 60 {
+					f = min(f, 1)
+				}
+				for i := 0; i+1 < c.N-f; i++ {
+					c.Rel = append(c.Rel, [2]int{i, i + 1})
+				}
+			}
+			if c.M == nil {
+				c.M = []int{}
+			}
+			return c
+		}
 		c.N = rapid.IntRange(0, maxN).Draw(t, "n")
 		dens := rapid.IntRange(0, 4).Draw(t, "density")
 		for j := 0; j < c.N; j++ {
